@@ -82,6 +82,11 @@ def gen_scenario(rng, cfg):
                                        {"fd": 1, "hex": ("probe%d-out\n" % ci).encode().hex()},
                                        {"fd": 2, "hex": ("probe%d-err\n" % ci).encode().hex()}]}}],
                       "probe": True})
+    if cfg.get("builtins"):
+        # learn what the two builtins print when they are not redirected
+        lines = [{"stages": [{"kind": "builtin", "text": "alias zz='true'"}], "probe": False, "learn": "define"},
+                 {"stages": [{"kind": "builtin", "text": "alias"}], "probe": False, "learn": "out"},
+                 {"stages": [{"kind": "builtin", "text": "cd /nonexistent_zz"}], "probe": False, "learn": "err"}] + lines
     sc = {"prop": "C04", "lines": lines, "externals": [], "faults": {}, "files": fw.to_json()}
     if cfg.get("open_fault") and rng.chance(60):
         sc["faults"] = {"open": [1 + rng.below(3), int(rng.choice([28, 24, 5, 30]))]}
@@ -90,6 +95,11 @@ def gen_scenario(rng, cfg):
 
 class C04Runner(LineRunner):
     prop = "C04"
+
+    def prepare_files(self):
+        LineRunner.prepare_files(self)
+        self.learned = {}
+        self.learn_pos = {}
 
     def on_hello(self, st):
         line = self.sc["lines"][st.line_no]
@@ -134,10 +144,36 @@ class C04Runner(LineRunner):
     def check_line_done(self, line, status):
         stages = line["_stages"]
         if len(stages) == 1 and stages[0].kind == "builtin":
-            # in-process builtin: what it printed is not modelled, its targets are not judged
-            for r in stages[0].spec.get("redirs", []):
-                if r["k"] == "out":
-                    self.opaque_paths.add(self.abspath(r["target"]))
+            st = stages[0]
+            import os
+            learn = line.get("learn")
+            if learn:
+                # an unredirected run: remember what it printed (the shell's stdout/stderr are files)
+                for name, key in (("shell.out", "out"), ("shell.err", "err")):
+                    p = os.path.join(self.sim.dir, name)
+                    data = open(p, "rb").read() if os.path.exists(p) else b""
+                    prev = self.learn_pos.get(name, 0)
+                    self.learn_pos[name] = len(data)
+                    if learn == key:
+                        self.learned[key] = data[prev:]
+                return
+            text = st.spec["text"]
+            known = None
+            if text == "alias" and self.learned.get("out"):
+                known = (1, self.learned["out"])
+            elif text.startswith("cd /nonexistent") and self.learned.get("err"):
+                known = (2, self.learned["err"])
+            if known is None:
+                # what it printed is not modelled, its targets are not judged
+                for r in st.spec.get("redirs", []):
+                    if r["k"] == "out":
+                        self.opaque_paths.add(self.abspath(r["target"]))
+            else:
+                # the builtin ran inside the shell: same left-to-right model as for a program
+                self.wire_stage(st)
+                self.model_write(st, known[1], known[0])
+                self.sim.probe("builtin_output_checked_against_redirection_model")
+                self.check_files()
             self.sim.probe("builtin_redirected_inside_shell_process")
             return
         last = stages[-1]
@@ -250,6 +286,23 @@ def explicit_cases():
                       "faults": {}, "files": {"in0": "input zero\n", "in1": "x"}, "config": "explicit",
                       "adversarial_picks": 40}
                 out.append(plines.LineRunner.rebuild(sc))
+    # in-process builtins with a dup form next to a file target, in both orders
+    def out_r(fd, target):
+        return {"k": "out", "fd": fd, "append": False, "target": target, "spaced": True, "explicit1": False}
+    dup21 = {"k": "dup", "from": 2, "to": 1}
+    dup12 = {"k": "dup", "from": 1, "to": 2, "explicit1": True}
+    learn = [{"stages": [{"kind": "builtin", "text": "alias zz='true'"}], "probe": False, "learn": "define"},
+             {"stages": [{"kind": "builtin", "text": "alias"}], "probe": False, "learn": "out"},
+             {"stages": [{"kind": "builtin", "text": "cd /nonexistent_zz"}], "probe": False, "learn": "err"}]
+    for text, redirs in (("alias", [dup12, out_r(2, "f1")]), ("alias", [out_r(2, "f1"), dup12]),
+                         ("alias", [out_r(1, "f1"), dup21]), ("alias", [dup21, out_r(1, "f1")]),
+                         ("cd /nonexistent_zz", [dup21, out_r(1, "f2")]), ("cd /nonexistent_zz", [out_r(1, "f2"), dup21]),
+                         ("cd /nonexistent_zz", [out_r(2, "f2"), dup12]), ("cd /nonexistent_zz", [dup12, out_r(2, "f2")])):
+        sc = {"prop": "C04", "lines": [dict(l) for l in learn] + [
+            {"stages": [{"kind": "builtin", "text": text, "redirs": [dict(r) for r in redirs]}], "probe": False}, dict(probe)],
+            "externals": [], "faults": {}, "files": {"in0": "input zero\n", "in1": "x", "f1": "old-f1", "f2": "old-f2"},
+            "config": "explicit_builtin", "adversarial_picks": 0}
+        out.append(plines.LineRunner.rebuild(sc))
     return out
 
 
